@@ -71,7 +71,7 @@ def run_scenario(exe, text, workdir, variant="plain", timeout=20):
     elif rc != 0:
         cls = "exit-in-library"
         detail = "exit status %d: %s" % (rc, err[-200:])
-    elif not out.rstrip().endswith("EXIT"):
+    elif "\nEXIT\n" not in ("\n" + out):        # (messages printed while the module is destroyed may follow EXIT)
         cls = "exit-in-library"
         detail = "process ended with status 0 before the end of the scenario"
     return {"cls": cls, "detail": detail, "out": out, "rc": rc}
